@@ -186,14 +186,15 @@ def unquoteValue (cv : List Char) : List Char :=
     | _ => cv
   | _ => cv
 
+/-- the loop body of `parse_cookie`: strip, drop pairs with an empty name, unquote -/
+def postProcess (l : List (List Char × List Char)) : List (List Char × List Char) :=
+  l.filterMap fun p =>
+    if (Py.strip p.1).isEmpty then none else some (Py.strip p.1, unquoteValue (Py.strip p.2))
+
 /-- `sansio.http.parse_cookie` as a list of pairs in order. -/
 def parseCookie (cookie : List Char) : List (List Char × List Char) :=
   if cookie.isEmpty then [] else
-  let s := cookie ++ [';']
-  (findAll (s.length + 1) s).filterMap fun (ck, cv) =>
-    let ck := Py.strip ck
-    let cv := Py.strip cv
-    if ck.isEmpty then none else some (ck, unquoteValue cv)
+  postProcess (findAll ((cookie ++ [';']).length + 1) (cookie ++ [';']))
 
 /-- `werkzeug.http.parse_cookie(str)`: latin-1 → UTF-8 (replace) dance first; `none` = UnicodeEncodeError
 (only for text that cannot come from a WSGI environ). -/
